@@ -96,6 +96,9 @@ func (propC05) Gen(seed uint64, tier string, idx int) any {
 		p.Other = &op
 	}
 	nf := r.Range(1, 4)
+	if r.Pct(12) {
+		nf = 0 // the stored file as it is: every entry point must also survive valid input
+	}
 	for i := 0; i < nf; i++ {
 		c := CorruptOp{Kind: corruptKinds[r.Intn(len(corruptKinds))], Pos: r.Intn(1000), Len: 1 + r.Intn(24), Val: uint32(r.Next())}
 		if c.Kind == "length" {
